@@ -285,7 +285,7 @@ fn run_process(c: &CliCheck, serial: u64) -> Ran {
         match child.try_wait() {
             Ok(Some(s)) => break Some(s),
             Ok(None) => {
-                if t0.elapsed() > Duration::from_secs(8) {
+                if t0.elapsed() > Duration::from_secs(90) {
                     hang = true;
                     let _ = child.kill();
                     let _ = child.wait();
@@ -421,7 +421,7 @@ pub fn evaluate(c: &CliCheck) -> Verdict {
     let ran = run_process(c, serial);
     v.executions += 1;
     if ran.hang {
-        v.fail("hang", 0, "hpbf did not exit within 8 s".into());
+        v.fail("hang", 0, "hpbf did not exit within 90 s of wall-clock time (it is also limited to 10 s of CPU time)".into());
         return v;
     }
     let mut out = ran.stdout.clone();
@@ -432,6 +432,11 @@ pub fn evaluate(c: &CliCheck) -> Verdict {
         } else {
             v.fail("missing-time-line", 0, "--time given but no `time:` line on stdout".into());
         }
+    }
+    if ran.code.is_none() {
+        // killed by a signal: SIGXCPU after 10 s of CPU time means it ran away, anything else is a crash
+        v.fail("killed-by-signal", 0, "hpbf was killed by a signal (10 s CPU limit exceeded, file-size limit exceeded, or a crash)".into());
+        return v;
     }
     let show = |b: &[u8]| -> String { format!("{:?}", String::from_utf8_lossy(&b[..b.len().min(80)])) };
     match want {
